@@ -1,33 +1,35 @@
 """Texts for MANIFEST.json (level claimed, trusted base, technique) per property."""
 
-HOOK_COMMITS = ["eb8809f"]
-FIX_COMMITS = ["61faa54", "2e82d91", "4439b53", "6f67524", "2ca778f"]
+HOOK_COMMITS = ['eb8809f']
+FIX_COMMITS = ['61faa54', '2e82d91', '4439b53', '6f67524', '2ca778f']
 
 NOT_APPLICABLE_REASON = {}
 
-META = {
-    "C05": {
-        "text": ("Generated-input search over the commit package only: every short op sequence over an 80-letter alphabet is enumerated "
-                 "exhaustively and long sequences are drawn with rapid; each is compared op-for-op with the written list through every "
-                 "reader, Clone, the buffer/commit codecs, Log append/range and the merge->put swap pass. Exploration, not proof: "
-                 "sequences beyond the bounds are sampled, not covered."),
-        "design_ref": "DESIGN.md §6 C05",
-        "note": "Trusts the harness's own list of written ops as oracle; format limits (offset < 2^31, strings <= 65535 bytes) are respected by the generator.",
-        "technique": "property-based testing (rapid) + bounded exhaustive enumeration + native go fuzz, round-trip oracle",
-    },
-    "C01": {
-        "text": ("Model-based stateful property testing: random histories over generated schemas are executed against the real collection and an "
-                 "independent reference model; every committed value is read back through all public reader paths and compared bit-for-bit / "
-                 "byte-for-byte. Exploration: bounded histories (<=3 blocks, ~30 actions) sampled, not exhaustive."),
-        "design_ref": "DESIGN.md §6 C01, §4 (model)",
-        "note": "Trusts the reference model (harness/model.go) as the statement of intended semantics; only the exported API is used.",
-        "technique": "model-based stateful property testing (rapid state machine) with reference-model oracle",
-    },
-    "C02": {
-        "text": ("Model-based stateful property testing with a metamorphic twin (history minus rolled-back transactions), a recording logger and "
-                 "in-flight observers (second transaction, snapshot+restore, own reads) at generated points. Exploration over bounded random histories."),
-        "design_ref": "DESIGN.md §6 C02",
-        "note": "Trusts the reference model; in-flight observers run on the transaction's own goroutine between steps, so latch-internal instants are not observed here (C10 covers those).",
-        "technique": "model-based stateful property testing (rapid) + metamorphic twin + in-flight observation",
-    },
-}
+META = {'C01': {'text': 'Model-based stateful property testing: random histories over generated schemas are executed against the real collection and an '
+                 'independent reference model; every committed value is read back through all public reader paths and compared bit-for-bit / '
+                 'byte-for-byte. Exploration: bounded histories (<=3 blocks, ~30 actions) sampled, not exhaustive.',
+         'design_ref': 'DESIGN.md §6 C01, §4 (model)',
+         'note': 'Trusts the reference model (harness/model.go) as the statement of intended semantics; only the exported API is used.',
+         'technique': 'model-based stateful property testing (rapid state machine) with reference-model oracle'},
+ 'C02': {'text': 'Model-based stateful property testing with a metamorphic twin (history minus rolled-back transactions), a recording logger and '
+                 'in-flight observers (second transaction, snapshot+restore, own reads) at generated points. Exploration over bounded random '
+                 'histories.',
+         'design_ref': 'DESIGN.md §6 C02',
+         'note': "Trusts the reference model; in-flight observers run on the transaction's own goroutine between steps, so latch-internal instants "
+                 'are not observed here (C10 covers those).',
+         'technique': 'model-based stateful property testing (rapid) + metamorphic twin + in-flight observation'},
+ 'C03': {'text': 'Model-based stateful property testing: indexes are created/dropped mid-history and compared with the model predicate after every '
+                 'action, then again on replicas built from the recorded change stream and on restored snapshots. Exploration over bounded random '
+                 'histories.',
+         'design_ref': 'DESIGN.md §6 C03',
+         'note': 'Trusts the reference model and the shared predicate evaluator (the same Go function evaluates the predicate for the model and '
+                 'inside CreateIndex, on independently decoded values).',
+         'technique': 'model-based stateful property testing (rapid) with reference-model oracle, on primary, stream replica and restored snapshot'},
+ 'C05': {'text': 'Generated-input search over the commit package only: every short op sequence over an 80-letter alphabet is enumerated exhaustively '
+                 'and long sequences are drawn with rapid; each is compared op-for-op with the written list through every reader, Clone, the '
+                 'buffer/commit codecs, Log append/range and the merge->put swap pass. Exploration, not proof: sequences beyond the bounds are '
+                 'sampled, not covered.',
+         'design_ref': 'DESIGN.md §6 C05',
+         'note': "Trusts the harness's own list of written ops as oracle; format limits (offset < 2^31, strings <= 65535 bytes) are respected by the "
+                 'generator.',
+         'technique': 'property-based testing (rapid) + bounded exhaustive enumeration + native go fuzz, round-trip oracle'}}
